@@ -50,7 +50,31 @@ def _content(c, bufs):
         return Stream(G.to_genshi(G.flatten(c[1])))
     if c[0] == 'buf':
         return bufs[c[1]]
+    if c[0] == 'fn':
+        # a callable: InjectorTransformation._inject() calls it at every injection.  It returns the same
+        # content at every call (a callable with state, i.e. different content per call, is not modelled)
+        inner = _content(c[1], bufs)
+        return lambda: inner
+    if c[0] == 'el':
+        # a builder Element (itself callable: _inject() calls it without arguments and gets the element back)
+        from genshi.builder import Element
+        return Element(c[1])(Stream(G.to_genshi(G.flatten(c[2]))))
     raise ValueError(c)
+
+
+def _attrfn(src):
+    """the callable of an `attrfn` operation: value(name, event) (see gen_tf.attrfn_value)"""
+    if isinstance(src, str):
+        return lambda name_, ev: ev[1][1].get(src)
+    if src[0] == 'tag':
+        return lambda name_, ev: ev[1][0].localname
+    if src[0] == 'const':
+        return lambda name_, ev: src[1]
+    if src[0] == 'name':
+        return lambda name_, ev: name_
+    if src[0] == 'count':
+        return lambda name_, ev: str(len(ev[1][1]))
+    raise ValueError(src)
 
 
 def _dropc(stream):
@@ -72,9 +96,13 @@ def _ident(stream):
 MAPTEXT = {'rev': lambda d: d[::-1], 'dup': lambda d: d + d}
 
 
-def rec_path_class(rec):
+def rec_path_class(rec, cur=None):
     """a Path subclass that records, per select link (keyed by its index in the chain), the list of
-    Path.test() results into `rec`"""
+    Path.test() results into `rec`.
+    `cur` (derivation trees): a one-element list holding the position, in the chain being run, of the
+    select link whose generator is starting (set by `PosLink`); the record is then keyed by that position
+    instead of the index given at construction -- the same SelectTransformation object sits in the chains
+    of several transformer objects, and after apply(Transformer) several times in one chain."""
     from genshi.path import Path
 
     class RecPath(Path):
@@ -83,7 +111,13 @@ def rec_path_class(rec):
         def test(self, ignore_context=False):
             # generators start lazily (the last link first): key the record by the op index
             inner = Path.test(self, ignore_context)
-            mine = rec.setdefault(self.idx, [])
+            if cur is None:
+                key = self.idx
+            else:
+                key, cur[0] = cur[0], None
+                if key is None:
+                    key = 'stray'       # a call of Path.test() that no select link of the chain made
+            mine = rec.setdefault(key, [])
             del mine[:]
 
             def _t(event, namespaces, variables, updateonly=False):
@@ -92,7 +126,7 @@ def rec_path_class(rec):
                 except Exception:
                     # path.py itself fails (its stack runs empty on an ill-nested stream): recorded
                     # as a fact about this select, the model answers `err` for it
-                    rec[('raised', self.idx)] = True
+                    rec[('raised', key)] = True
                     raise
                 if not updateonly:
                     mine.append((event, r))
@@ -128,7 +162,7 @@ def apply_op(t, i, op, bufs, RecPath):
         from genshi.core import Stream as _S
         return t.wrap(Element(op[1], **dict((k, v) for k, v in op[2]))(_S(G.to_genshi(G.flatten(op[3])))))
     if name == 'attrfn':
-        return t.attr(op[1], (lambda src: lambda name_, ev: ev[1][1].get(src))(op[2]))
+        return t.attr(op[1], _attrfn(op[2]))
     if name == 'rename':
         return t.rename(op[1])
     if name == 'attr':
@@ -237,20 +271,52 @@ OPCLASS = {'select': 'SelectTransformation', 'remove': 'RemoveTransformation', '
            'filter': 'FilterTransformation', 'trace': 'TraceTransformation', 'maptext': 'MapTransformation'}
 
 
+class PosLink(object):
+    """stands, for ONE run, for the select link at position `i` of the chain being run.  A pass-through:
+    when its generator starts it notes the position, then the link's own generator starts, whose first
+    action is `self.path.test()` (RecPath.test reads the position) -- before it pulls from upstream."""
+
+    def __init__(self, link, i, cur):
+        self.link, self.i, self.cur = link, i, cur
+
+    def __call__(self, stream):
+        self.cur[0] = self.i
+        for item in self.link(stream):
+            yield item
+
+
 def run_tree(case):
     """build the transformer objects of a derivation tree on the real code (derived from each other,
     sharing prefixes), record after every derivation the links of ALL objects built so far, then
     apply the objects named in case['apply'].
-    -> (history: [[[link class names] per object] per derivation], runs: [(node, ops, real)])"""
+    -> (history: [[[link labels] per object] per derivation], runs: [(node, ops, real)])
+    A link is labelled `<n>:<class name>`, n = the index of the transformer object in whose chain the link
+    OBJECT was seen first (0: the root): an operation method makes exactly one new link, apply(Transformer)
+    none -- the derived chain holds the link objects of its origin and of its argument."""
+    from genshi.filters.transform import SelectTransformation
     rec = {}
-    RecPath = rec_path_class(rec)
+    cur = [None]
+    RecPath = rec_path_class(rec, cur)
     bufs = {}
     chains = G.tree_chains(case)
     nodes = [apply_op(None, 0, chains[0][0], bufs, RecPath)]
+    labels, keep = {}, []
+
+    def label(link, n):
+        if id(link) not in labels:
+            labels[id(link)] = '%d:%s' % (n, type(link).__name__)
+            keep.append(link)                 # keeps id() unique
+        return labels[id(link)]
+
+    for l in nodes[0].transforms:
+        label(l, 0)
     history = []
     for k, (parent, op) in enumerate(case['derive']):
-        nodes.append(apply_op(nodes[parent], len(chains[parent]), op, bufs, RecPath))
-        history.append([[type(l).__name__ for l in t.transforms] for t in nodes])
+        if op[0] == 'cat':
+            nodes.append(nodes[parent].apply(nodes[op[1]]))
+        else:
+            nodes.append(apply_op(nodes[parent], len(chains[parent]), op, bufs, RecPath))
+        history.append([[label(l, k + 1) for l in t.transforms] for t in nodes])
     runs = []
     for k in case['apply']:
         for i, b in bufs.items():
@@ -260,7 +326,17 @@ def run_tree(case):
             log.seek(0)
             log.truncate()
         rec.clear()
-        real = run_transformer(case['doc'], nodes[k], bufs, rec)
+        # for this run every select link of the object's chain is stood for by a pass-through that tells
+        # RecPath its position in THIS chain (in place: the object and its list stay the ones under test)
+        t = nodes[k]
+        saved = t.transforms[:]
+        t.transforms[:] = [PosLink(l, i, cur) if isinstance(l, SelectTransformation) else l
+                           for i, l in enumerate(saved)]
+        cur[0] = None
+        try:
+            real = run_transformer(case['doc'], t, bufs, rec)
+        finally:
+            t.transforms[:] = saved
         real['rec'] = dict((i, list(v) if isinstance(v, list) else v) for i, v in rec.items())
         real['bufs'] = dict((i, b) for i, b in real['bufs'].items() if any(o[0] in ('copy', 'cut') and o[1] == i
                                                                           for o in chains[k]))
@@ -753,7 +829,12 @@ def valid_case(case):
                     return False
                 if op[0] in INJ:
                     c = op[1]
-                    if c[0] == 's':
+                    if c[0] == 'fn' and len(c) == 2 and c[1][0] in ('s', 'ev'):
+                        c = c[1]
+                    if c[0] == 'el':
+                        if not (len(c) == 3 and isinstance(c[1], str) and c[1].isalnum() and valid_forest(c[2])):
+                            return False
+                    elif c[0] == 's':
                         if not isinstance(c[1], str):
                             return False
                     elif c[0] == 'ev':
@@ -771,7 +852,10 @@ def valid_case(case):
                                               all(isinstance(x, list) and len(x) == 2 and x[0].isalnum() for x in op[2])):
                     return False
                 if op[0] == 'attrfn' and not (isinstance(op[1], str) and op[1].isalnum() and
-                                              isinstance(op[2], str) and op[2].isalnum()):
+                                              (isinstance(op[2], str) and op[2].isalnum() or
+                                               op[2] in (['tag'], ['name'], ['count']) or
+                                               isinstance(op[2], list) and len(op[2]) == 2 and op[2][0] == 'const'
+                                               and isinstance(op[2][1], str))):
                     return False
                 if op[0] == 'rename' and not (isinstance(op[1], str) and op[1].isalnum()):
                     return False
@@ -800,7 +884,11 @@ def valid_case(case):
             for d in case['derive']:
                 if len(d) != 2 or not isinstance(d[0], int) or not 0 <= d[0] < n:
                     return False
+                if d[1][0] == 'cat' and not (len(d[1]) == 2 and isinstance(d[1][1], int) and 0 <= d[1][1] < n):
+                    return False
                 n += 1
+            if any(len(ops) > G.TREE_MAXLEN for ops in G.tree_chains(case)):
+                return False
             if not all(isinstance(a, int) and 0 <= a < n for a in case['apply']) or not case['apply']:
                 return False
             return all(valid_case({'kind': 'chain', 'doc': case['doc'], 'ops': ops}) and
@@ -947,6 +1035,10 @@ def w_content(c):
         return [Atom('STR'), c[1]]
     if c[0] == 'ev':
         return [Atom('ev'), [w_event(e) for e in G.flatten(c[1])]]
+    if c[0] == 'fn':
+        return w_content(c[1])        # a callable returning the same content at every call: that content
+    if c[0] == 'el':
+        return [Atom('ev'), [w_event(e) for e in G.content_events(c)]]     # a builder Element: its events
     return [Atom('buf'), c[1]]
 
 
@@ -965,7 +1057,13 @@ def w_op(i, op, rec):
     if n == 'wrapel':
         return [Atom('wrapel'), ['', op[1]], [[['', k], v] for k, v in op[2]], [w_event(e) for e in G.flatten(op[3])]]
     if n == 'attrfn':
-        return [Atom('attrfn'), ['', op[1]], op[2]]
+        if isinstance(op[2], str):
+            return [Atom('attrfn'), ['', op[1]], op[2]]
+        if op[2][0] == 'const':
+            return [Atom('attrfn'), ['', op[1]], [Atom('const'), op[2][1]]]
+        if op[2][0] == 'name':
+            return [Atom('attrfn'), ['', op[1]], [Atom('const'), op[1]]]       # value(name, event) = name
+        return [Atom('attrfn'), ['', op[1]], [Atom(op[2][0])]]
     if n in INJ:
         return [Atom(n), w_content(op[1])]
     if n == 'attr':
@@ -1008,13 +1106,22 @@ def chain_model_answer(ans):
         return 'err' if v[1] == 'T' else 'err (stage-wise) but the lazy model answers a stream'
     marked = [[None if m == 'N' else str(m), u_event(e)] for m, e in v[1]]
     bufs = [[int(i), [u_event(e) for e in b]] for i, b in v[2]]
-    # v[5]: 'lazy' = answered by the lazy model (the interleaving is observable), else: both models agree
-    return ['ok', marked, bufs, [u_event(e) for e in v[3]], v[4] == 'T', v[5] in ('T', 'lazy')]
+    # v[5]: 'lazy' = answered by the lazy model (the interleaving is observable), else: both models agree;
+    # 'lazy+trace' = ... and reads come after writes (`lazyRaw`): the link-by-link trace semantics gives the
+    # same (theorem `lazy_trace`); for stage-wise chains the flag 'T' includes lazy = trace
+    return ['ok', marked, bufs, [u_event(e) for e in v[3]], v[4] == 'T', v[5] in ('T', 'lazy', 'lazy+trace')]
 
 
 def derive_line(case):
-    return proto.line(Atom('C20'), Atom('derive'), Atom(OPCLASS['select']),
-                      [[p, Atom(OPCLASS[op[0]])] for p, op in case['derive']])
+    """links are named by the derivation that made them (see run_tree); histories without
+    apply(Transformer) go to `derive` (model `history`), mixed ones to `derive2` (`historyD`)"""
+    root = '0:' + OPCLASS['select']
+    if not any(op[0] == 'cat' for _, op in case['derive']):
+        return proto.line(Atom('C20'), Atom('derive'), root,
+                          [[p, '%d:%s' % (k + 1, OPCLASS[op[0]])] for k, (p, op) in enumerate(case['derive'])])
+    return proto.line(Atom('C20'), Atom('derive2'), root,
+                      [[Atom('cat'), p, op[1]] if op[0] == 'cat' else [Atom('one'), p, '%d:%s' % (k + 1, OPCLASS[op[0]])]
+                       for k, (p, op) in enumerate(case['derive'])])
 
 
 def derive_model_answer(ans):
@@ -1068,6 +1175,8 @@ def compare(items, res):
             res.count('chain-model:' + ('lazy' if lazy else 'stage-wise+lazy'))
             if lazy:
                 stream = stream + '-lazy'
+                if 'lazy+trace' in ans:
+                    res.count('chain-model:lazy+trace')
         if model == 'outside' and case.get('kind') == 'formx':
             # the documentation semantics claims nothing outside `okForest` (the recorded findings);
             # for kind `form` (inside the hypotheses of the oracle) `outside` is a disagreement
@@ -1154,6 +1263,10 @@ def process(cases, res):
                 res.count('chain-len:%d' % (len(c['ops']) - 1))
                 for o in c['ops']:
                     res.count('op:' + o[0])
+                    if o[0] in INJ:
+                        res.count('inj-content:' + ('callable->' + o[1][1][0] if o[1][0] == 'fn' else o[1][0]))
+                    elif o[0] == 'attrfn':
+                        res.count('attrfn:' + ('copy-attr' if isinstance(o[2], str) else o[2][0]))
                 res.count('chain-status:' + real['status'] + (':' + real['err'] if real['err'] else ''))
                 hits = [sum(1 for _, r in v if r is True or r) for k_, v in sorted((k2, v2) for k2, v2 in real['rec'].items() if isinstance(k2, int))]
                 if any(isinstance(k2, tuple) and k2[0] == 'raised' for k2 in real['rec']):
@@ -1178,8 +1291,20 @@ def process(cases, res):
                 res.count('tree-shape:' + G.tree_shape(c))
                 res.count('tree-size:%d' % (len(c['derive']) + 1))
                 res.count('tree-branching:' + ('yes' if len(set(p for p, _ in c['derive'])) < len(c['derive']) else 'no'))
+                cats = [(p, op[1]) for p, op in c['derive'] if op[0] == 'cat']
+                catnodes = set(i + 1 for i, (_, op) in enumerate(c['derive']) if op[0] == 'cat')
+                res.count('tree:cat-steps', len(cats))
+                res.count('tree:one-steps', len(c['derive']) - len(cats))
+                res.count('tree:with-cat' if cats else 'tree:without-cat')
+                for p, j in cats:
+                    res.count('tree-cat:' + ('self' if p == j else 'argument-is-a-cat-object' if j in catnodes else
+                                             'origin-is-a-cat-object' if p in catnodes else 'plain'))
                 seen = set()
                 for k, ops, real in runs:
+                    if k in catnodes:
+                        res.count('tree-apply:cat-object')
+                        res.count('tree-cat-chain-len:%d' % len(ops))
+                        res.count('tree-cat-selects-in-chain:%d' % sum(1 for o in ops if o[0] == 'select'))
                     res.count('tree-apply:' + ('again' if k in seen else 'first') + (':origin' if k == 0 else ''))
                     seen.add(k)
                     if real['status'] == 'ok' and unmark(real['marked']) != G.flatten(c['doc']):
